@@ -112,6 +112,24 @@ RAW_INFO = {
     "_": ("fail",), "[1, -2]": ("ok", set(), set()), "{1: y}": ("ok", {"y"}, set()), "(1 f1 2 f2 3)": ("ok", {"f1", "f2"}, set()),
     "max(1, 2)": ("ok", {"max"}, set()), "(_ + 1)(x)": ("ok", {"x"}, set()), "(y - 1)": ("ok", {"y"}, set()), "(-y)": ("ok", {"y"}, set()),
 }
+# one fragment per expression kind of the implementation (Expr variants of src/core.rs) that the node grammar does not build:
+# format strings, update expressions, splats, slices, dict defaults, annotations on declarations / parameters / catch patterns,
+# destructuring declarations, struct definitions, symbol access, `literally` patterns, consume; each also with the unbound name w
+VARIANT_RAWS = {
+    'F"{y} {x}"': ("ok", {"y", "x"}, set()), 'F"{w}"': ("refuse",), 'F"{y + 1 #x}"': ("ok", {"y"}, set()),
+    "z{0 = y}": ("ok", {"z", "y"}, set()), "z{0 = w}": ("refuse",), "[...z, z[0:y], z[y - 10]]": ("ok", {"z", "y"}, set()), "[...w]": ("refuse",), "z[w:]": ("refuse",),
+    "{:y}": ("ok", {"y"}, set()), "{:w}": ("refuse",), "{y: z, 1: x}": ("ok", {"y", "z", "x"}, set()),
+    "(q9: int = y; q9)": ("ok", {"y"}, set()), "(q9: w = 1)": ("refuse",), "(q9, r9 := z; q9 + y)": ("ok", {"z", "y"}, set()), "(q9, r9 := w)": ("refuse",),
+    "(\\a9: int -> a9 + y)(x)": ("ok", {"y", "x"}, set()), "(\\a9: w -> a9)": ("refuse",), "(\\a9, ...b9 -> [a9, b9, y])(x, 1)": ("ok", {"y", "x"}, set()),
+    "(try throw y catch q9: int -> q9 + y)": ("ok", {"y"}, set()), "(try throw 1 catch q9: w -> 0)": ("refuse",),
+    "(struct S9 (a9, b9); S9(y, x))": ("ok", {"y", "x"}, set()), "z::len": ("ok", {"z"}, set()), "w::len": ("refuse",),
+    "(switch (x) case (literally y) -> 1 case _ -> y)": ("ok", {"x", "y"}, set()), "(switch (x) case (literally w) -> 1 case _ -> 2)": ("refuse",),
+    "(switch (x) case q9: int -> q9 + y case _ -> 0)": ("ok", {"x", "y"}, set()),
+    "(consume z)": ("mutates", "z"), "(y max= 3)": ("mutates", "y"), "(z[0] max= y)": ("mutates", "z"), "(y, x = 1, 2)": ("mutates", "y"),
+    "(z2 := z; consume z2)": ("ok", {"z"}, set()), "(1 < y <= 20)": ("ok", {"y"}, set()), "(y max x min 3)": ("ok", {"y", "x"}, set()),
+    "(x . (+ y))": ("ok", {"x", "y"}, set()), "(x then (* y))": ("ok", {"x", "y"}, set()), "(\\...r9 -> [r9, y])(x)": ("ok", {"y", "x"}, set()),
+}
+RAW_INFO.update(VARIANT_RAWS)
 
 
 def analyse(e, bound, info):
@@ -121,9 +139,11 @@ def analyse(e, bound, info):
     if t == "raw":
         r = RAW_INFO[e[1]]
         if r[0] == "mutates":
-            if r[1] not in bound:
+            if not is_bound(bound, r[1]):
                 raise Fail()      # pop / remove / swap assign to the variable they name
             return
+        if r[0] == "refuse":
+            raise Fail()
         if r[0] == "fail":
             if section_position:
                 return        # an underscore as chain operand / call callee or argument / list element makes a section
@@ -136,7 +156,7 @@ def analyse(e, bound, info):
             raise Fail()
         if e[1].startswith("(z[") or e[1].startswith("(every z["):
             # as for a bare assignment the target is looked at first: an outer z cannot be assigned through an index
-            if "z" not in bound:
+            if not is_bound(bound, "z"):
                 raise Fail()
             analyse(e[2], bound, info)
             return
@@ -156,12 +176,17 @@ def analyse(e, bound, info):
         analyse(e[1], bound, info)
         for (pat, body) in e[2]:
             names = [pat[1]] if pat[0] == "pname" else (list(pat[1]) if pat[0] in ("plist", "plistl") else [])
-            analyse(body, set(bound) | set(names), info)
+            b2 = set(bound)
+            for nm in names:
+                bind(b2, nm)
+            analyse(body, b2, info)
         return
     if t == "switchx":
         analyse(e[1], bound, info)
         for (psrc, names, body) in e[2]:
-            b2 = set(bound) | set(names)       # a pattern's names exist in its own arm only
+            b2 = set(bound)                    # a pattern's names exist in its own arm only
+            for nm in names:
+                bind(b2, nm)
             analyse(body, b2, info)
         return
     if t == "list":
@@ -176,17 +201,23 @@ def analyse(e, bound, info):
         analyse(e[3], bound, info)
         return
     if t == "decl":
-        bound.add(e[1])
+        # the right-hand side runs before the name exists: there (outside nested lambdas, which run later) the name still
+        # means the outer variable - "~name" marks a name that is declared but does not exist yet
+        fresh = not is_bound(bound, e[1])
+        bind(bound, e[1])
         info["declared"].add(e[1])
+        if fresh:
+            bound.add("~" + e[1])
         analyse(e[2], bound, info)
+        bound.discard("~" + e[1])
         return
     if t == "set":
-        if e[1] not in bound:
+        if not is_bound(bound, e[1]):
             raise Fail()
         analyse(e[2], bound, info)
         return
     if t == "opset":
-        if e[1] not in bound:
+        if not is_bound(bound, e[1]):
             raise Fail()
         analyse(e[3], bound, info)
         return
@@ -211,14 +242,14 @@ def analyse(e, bound, info):
             # the iteratee is evaluated before the clause's names exist
             if c[0] == "each":
                 analyse(c[2], b2, info)
-                b2.add(c[1])
+                bind(b2, c[1])
             elif c[0] == "item":
                 analyse(c[3], b2, info)
-                b2.add(c[1])
-                b2.add(c[2])
+                bind(b2, c[1])
+                bind(b2, c[2])
             elif c[0] == "let":
                 analyse(c[2], b2, info)
-                b2.add(c[1])
+                bind(b2, c[1])
                 info["declared"].add(c[1])
             else:
                 analyse(c[1], b2, info)
@@ -244,7 +275,7 @@ def analyse(e, bound, info):
         analyse(e[1], bound, info)
         b2 = set(bound)
         if e[2] != "_":
-            b2.add(e[2])
+            bind(b2, e[2])
         analyse(e[3], b2, info)
         return
     if t in ("and", "or", "coalesce"):
@@ -252,12 +283,13 @@ def analyse(e, bound, info):
         analyse(e[2], bound, info)
         return
     if t == "lambda":
-        b2 = set(bound)
-        for p in e[1]:
-            b2.add(p[1])
+        # defaults are evaluated before any parameter is bound: they see the enclosing scope only
         for p in e[1]:
             if p[0] == "pd":
-                analyse(p[2], b2, info)
+                analyse(p[2], set(bound), info)
+        b2 = {n for n in bound if not n.startswith("~")}     # the body runs later, when pending declarations exist
+        for p in e[1]:
+            bind(b2, p[1])
         analyse(e[2], b2, info)
         return
     if t == "call":
@@ -277,8 +309,17 @@ def analyse(e, bound, info):
     raise KeyError(t)
 
 
+def bind(bound, n):
+    bound.add(n)
+    bound.discard("~" + n)
+
+
+def is_bound(bound, n):
+    return n in bound and ("~" + n) not in bound
+
+
 def read(n, bound, info):
-    if n in bound:
+    if is_bound(bound, n):
         return
     if n in OUTER_NAMES:
         info["reads_outer"].add(n)
@@ -367,10 +408,43 @@ def crossing_bodies(tier):
             yield ("seq", [("for", [("let", "q", I(4)), ("each", "i", V("z"))], ("do", u)), u])
 
 
+# parameter lists of nested lambdas: a default is an expression like any other - its free variables are resolved at freeze
+# time, an unbound name in it fails the freeze even when the default is never used
+def param_bodies(tier):
+    defaults = [V("y"), V("w"), V("x"), I(5), ("bin", "+", V("y"), I(1)), ("call", V("max"), [I(1), I(2)]), ("raw", "(1 f1 2 f2 3)"), ("raw", "(-mn)"),
+                ("list", [V("y"), V("z")]), ("lambda", [], V("y"))]
+    for d in defaults:
+        lam = ("lambda", [("pd", "q", d)], V("q"))
+        yield ("call", lam, [])
+        yield ("call", lam, [I(3)])
+        yield lam
+        yield ("call", ("lambda", [("p", "a"), ("pd", "q", d)], ("list", [V("a"), V("q")])), [V("x")])
+        yield ("call", ("lambda", [], ("call", lam, [])), [])
+        yield ("call", ("lambda", [("pd", "q", d), ("pd", "r", V("q"))], ("list", [V("q"), V("r")])), [])
+        yield ("seq", [("decl", "g", lam), ("list", [("call", V("g"), []), ("call", V("g"), [V("x")])])])
+        yield ("for", [("each", "i", V("z"))], ("yield", ("call", lam, []), None))
+    yield ("call", ("lambda", [("p", "a"), ("pd", "q", V("a"))], ("list", [V("a"), V("q")])), [V("y")])
+    yield ("call", ("lambda", [("pd", "y", V("y"))], V("y")), [])
+    yield ("call", ("lambda", [("pd", "q", ("decl", "v", V("y")))], V("q")), [])
+
+
+def variant_bodies(tier):
+    for src in VARIANT_RAWS:
+        r = ("raw", src)
+        yield r
+        yield ("call", ("lambda", [], r), [])
+        yield ("seq", [("decl", "y", I(1)), r])
+        yield ("seq", [("decl", "z", ("list", [I(4), I(5)])), r])
+        yield ("for", [("each", "i", V("z"))], ("yield", r, None))
+        yield ("list", [r, V("y")])
+        yield ("if", V("x"), r, I(0))
+        yield ("try", r, "e", I(-1))
+
+
 def bounds(tier):
     n = 3 if tier == "quick" else 4
     return {"body_max_nodes": n, "bodies": sum(len(bodies(k)) for k in range(1, n + 1)), "arguments": len(ARGS),
-            "feature_families": [f for f, _ in c05.FAMILIES if f != "eval"] + ["switch", "crossing"], "crossing_bodies": sum(1 for _ in crossing_bodies(tier)), "switch_bodies": sum(1 for _ in switch_bodies(tier)), "outer_names": sorted(OUTER_NAMES), "unbound_name": "w"}
+            "feature_families": [f for f, _ in c05.FAMILIES if f != "eval"] + ["switch", "crossing", "params", "variants"], "variant_fragments": len(VARIANT_RAWS), "param_bodies": sum(1 for _ in param_bodies(tier)), "crossing_bodies": sum(1 for _ in crossing_bodies(tier)), "switch_bodies": sum(1 for _ in switch_bodies(tier)), "outer_names": sorted(OUTER_NAMES), "unbound_name": "w"}
 
 
 def cases(tier, shard, nshards):
@@ -414,6 +488,16 @@ def cases(tier, shard, nshards):
         if cnt % nshards != shard:
             continue
         yield mk(body, "crossing", 9)
+    for body in param_bodies(tier):
+        cnt += 1
+        if cnt % nshards != shard:
+            continue
+        yield mk(body, "params", 9)
+    for body in variant_bodies(tier):
+        cnt += 1
+        if cnt % nshards != shard:
+            continue
+        yield mk(body, "variants", 9)
 
 
 def nontrivial(case, rs):
